@@ -63,6 +63,16 @@ pub fn script_for(t: &str, s: u32) -> ScriptBuf {
   }
 }
 
+pub fn brotli_bytes(data: &[u8]) -> Vec<u8> {
+  use std::io::Write;
+  let mut out = Vec::new();
+  {
+    let mut w = brotli::CompressorWriter::new(&mut out, 4096, 5, 22);
+    w.write_all(data).unwrap();
+  }
+  out
+}
+
 fn control_block() -> Vec<u8> {
   let mut cb = vec![0xc0];
   cb.extend([0x02u8; 32]);
@@ -201,20 +211,46 @@ impl Node {
       .push_opcode(opcodes::OP_FALSE)
       .push_opcode(opcodes::all::OP_IF);
     b = push(b, b"ord");
-    let ct: &[u8] = if env.hidden {
-      b"text/plain;charset=utf-8"
-    } else {
-      b"image/png"
+    let ct: &[u8] = match env.ct.as_deref() {
+      Some("text") => b"text/plain;charset=utf-8",
+      Some("html") => b"text/html",
+      Some("invalid") => b"image/png\nx: y",
+      Some("absent") => b"",
+      Some(_) => b"image/png",
+      None => {
+        if env.hidden {
+          b"text/plain;charset=utf-8"
+        } else {
+          b"image/png"
+        }
+      }
     };
-    if env.pushnum {
-      b = b.push_opcode(opcodes::all::OP_PUSHNUM_1);
-    } else {
-      b = push(b, &[1]);
-    }
-    b = push(b, ct);
-    if env.dup {
-      b = push(b, &[1]);
+    if !ct.is_empty() {
+      if env.pushnum {
+        b = b.push_opcode(opcodes::all::OP_PUSHNUM_1);
+      } else {
+        b = push(b, &[1]);
+      }
       b = push(b, ct);
+      if env.dup {
+        b = push(b, &[1]);
+        b = push(b, ct);
+      }
+    }
+    match env.enc.as_deref() {
+      Some("br") => {
+        b = push(b, &[9]);
+        b = push(b, b"br");
+      }
+      Some("gzip") => {
+        b = push(b, &[9]);
+        b = push(b, b"gzip");
+      }
+      Some("invalid") => {
+        b = push(b, &[9]);
+        b = push(b, &[0xff, 0xfe]);
+      }
+      _ => {}
     }
     if let Some(p) = env.pointer {
       let mut bytes = (p * K).to_le_bytes().to_vec();
@@ -239,9 +275,13 @@ impl Node {
     if env.incomplete {
       // a lone tag push with no value and no body
       b = push(b, &[5]);
-    } else {
+    } else if !env.nobody {
       b = push(b, &[]);
-      b = push(b, env.label.as_bytes());
+      if env.enc.as_deref() == Some("br") {
+        b = push(b, &brotli_bytes(env.label.as_bytes()));
+      } else {
+        b = push(b, env.label.as_bytes());
+      }
     }
     b.push_opcode(opcodes::all::OP_ENDIF)
   }
